@@ -81,9 +81,12 @@ fn check_tx_case(g: &TxGen, c: &Value, salt: u64, stats: &mut Stats) -> Vec<Stri
     let total = usize_of(&c["total"]);
     let mem = &c["mem"];
     let mut bad: Vec<String> = vec![];
-    let parts = match g.parts_with(&shape, salt) {
-        Ok(p) => p,
-        Err(e) => panic!("harness: shape {:?} cannot be generated: {e}", shape),
+    let parts = match guarded(|| g.parts_with(&shape, salt)) {
+        Ok(Ok(p)) => p,
+        // "shape:" errors are the generator's own validation (a harness / specification bug)
+        Ok(Err(e)) if e.starts_with("shape:") => panic!("harness: shape {:?} cannot be generated: {e}", shape),
+        Ok(Err(e)) => return vec![format!("a well-formed transaction of this shape cannot be constructed: {e}")],
+        Err(p) => return vec![format!("constructing a well-formed transaction panics: {p}")],
     };
     let x0 = match guarded(|| parts.freeze()) {
         Ok(Ok(t)) => t,
@@ -185,13 +188,16 @@ fn check_tx_case(g: &TxGen, c: &Value, salt: u64, stats: &mut Stats) -> Vec<Stri
         }
         Err(e) => bad.push(format!("the parsed transaction cannot be written: {e}")),
     }
-    if !shape.version.has_orchard() {
+    if !format_has_orchard(shape.version) {
         // v1..v4: the identifier is the double SHA-256 of the serialisation
         if x.txid().as_ref() != &sha256d(&bytes0) || x0.txid().as_ref() != &sha256d(&bytes0) {
             bad.push("txid of a pre-v5 transaction is not SHA-256d of its serialisation".into());
         }
     }
-    stats.txids.insert(*x.txid().as_ref());
+    // distinct non-trivial values: transactions with at least one bundle
+    if x.transparent_bundle().is_some() || x.sprout_bundle().is_some() || x.sapling_bundle().is_some() || x.orchard_bundle().is_some() || x.ironwood_bundle().is_some() {
+        stats.txids.insert(*x.txid().as_ref());
+    }
     bad
 }
 
@@ -253,7 +259,7 @@ fn check_wcase(g: &TxGen, c: &Value, salt: u64) -> Option<String> {
     shape.n_vout = 1;
     shape.script_sig_lens = Some(vec![5]);
     shape.script_pubkey_lens = Some(vec![7]);
-    if ver.has_sapling() {
+    if format_has_sapling(ver) {
         shape.n_outputs = 1;
     }
     let mut parts = g.parts_with(&shape, salt).expect("base shape");
